@@ -31,7 +31,7 @@ EXHAUSTIVE = {"quick": False, "thorough": False}
 
 def plan(tier, seed):
     if tier == "quick":
-        return [{"trees": 260}]
+        return [{"trees": 200}]
     return [{"trees": 2000, "salt": i} for i in range(16)] + [{"trees": 0, "repo_tests": True}]
 
 
@@ -258,7 +258,7 @@ def run(ctx, params):
             stack = [doc]
             while stack:
                 e = stack.pop()
-                if rng.random() < 0.3:
+                if rng.random() < 0.6:
                     e["decls"][None] = rng.choice(["urn:default:1", "urn:default:2"])
                 stack.extend(x for kind, x in e["items"] if kind == "elem")
             t, origin = metapype_io.from_xml(xmlgen.serialize(rng, doc), clean=rng.random() < 0.5), "imported-xml"
@@ -273,6 +273,17 @@ def run(ctx, params):
     if c is not None:
         ctx.case(judge, ctx, c, "tests/data/eml.xml")
         emlkit.discard(c)
+    # hand-written documents with the namespace shapes that matter: default namespace on an inner element below a parent without
+    # any binding, re-declaration in a subtree, qualified attributes, mixed content
+    for doc in ('<a><b xmlns="urn:x"><c/><d xmlns="urn:y">t</d></b><e/></a>',
+                '<a xmlns:p="u1"><p:b xmlns:p="u2" p:k="v"><c xml:lang="en">x</c></p:b><p:d/></a>',
+                '<eml:eml xmlns:eml="https://eml.ecoinformatics.org/eml-2.2.0" packageId="x" system="s"><dataset><title>t <b>i</b> tail</title></dataset></eml:eml>',
+                '<a><b xmlns="urn:x"/></a>', '<a xmlns="urn:root"><b xmlns=""><c/></b></a>'):
+        for clean in (True, False):
+            t = metapype_io.from_xml(doc, clean=clean)
+            ctx.count("hand_written_documents")
+            ctx.case(judge, ctx, t, "hand-written document")
+            emlkit.discard(t)
     # a chain deeper than the interpreter's recursion limit: the recursive entry points die with RecursionError half-way - and must
     # still leave the tree as it was (and answer the same way the second time)
     import sys
